@@ -5,6 +5,7 @@ from __future__ import annotations
 import ast
 
 from gv import rules
+from gv.astutil import AnalysisError
 from gv.astutil import dotted
 from gv.astutil import kwarg
 from gv.astutil import last_attr
@@ -217,7 +218,52 @@ def check_image(ctx: Ctx) -> None:
     ctx.ob("14.3-image", cong, bool(ok), "without unit_sampling the mapped samples are returned", node=(phys or [g])[0])
 
 
+def check_stratified_levels(ctx: Ctx) -> None:
+    """14.5: a stratified design (axial, factorial, composite) never has more points than requested:
+    with n_levels = floor(q) and size = c0 + c1 * n_levels (c1 > 0), size <= c0 + c1 * q must be <= n_samples."""
+    import sympy as sp
+
+    from gv import symexpr
+
+    n = 0
+    for rel in ("ot_axial_doe.py", "ot_factorial_doe.py", "ot_composite_doe.py"):
+        path = "algos/doe/openturns/_algos/" + rel
+        mod = ctx.index.module(path)
+        cls = next(iter(mod.classes.values()))
+        f = cls.methods.get("_compute_n_levels")
+        con = cname(path, cls.qualname, "_compute_n_levels")
+        if f is None:
+            ctx.ob("14.5-levels", con, False, "the number of levels of the stratified design is not computed in _compute_n_levels", node=cls.node, stmt="_compute_n_levels defined")
+            continue
+        params = [a.arg for a in f.args.args if a.arg not in ("self", "cls")]
+        env = {p_: sp.Symbol(p_, positive=True) for p_ in params}
+        lv = [s_ for s_ in stmts_of(f) if isinstance(s_, ast.Assign) and dotted(s_.targets[0]) == "n_levels"]
+        fin = [s_ for s_ in stmts_of(f) if isinstance(s_, ast.Assign) and dotted(s_.targets[0]) == "final_n_samples"]
+        rets = [s_ for s_ in stmts_of(f) if isinstance(s_, ast.Return) and s_.value is not None]
+        q = None
+        if len(lv) == 1:
+            v = lv[0].value
+            if isinstance(v, ast.Call) and dotted(v.func) in ("int", "floor") and len(v.args) == 1:
+                q = symexpr.to_term(v.args[0], env)
+            elif isinstance(v, ast.BinOp) and isinstance(v.op, ast.FloorDiv):
+                a, b = symexpr.to_term(v.left, env), symexpr.to_term(v.right, env)
+                q = a / b if a is not None and b is not None else None
+        size = symexpr.to_term(fin[0].value, {**env, "n_levels": sp.Symbol("n_levels", positive=True)}) if len(fin) == 1 else None
+        if q is None or size is None or "n_samples" not in env:
+            raise AnalysisError(f"{con}: n_levels = int(<quotient>) / final_n_samples = <affine in n_levels> not recognised")
+        L = sp.Symbol("n_levels", positive=True)
+        c1 = sp.simplify(sp.diff(size, L))
+        slack = sp.simplify(env["n_samples"] - size.subs(L, q))
+        n += 1
+        ok = c1.free_symbols <= set(env.values()) and bool(c1.is_positive) and slack.is_number and slack >= 0
+        ctx.ob("14.5-levels", con, bool(ok), f"with n_levels = floor({q}) the design has {size} = at most {sp.simplify(size.subs(L, q))} points, which exceeds the requested n_samples by {sp.simplify(-slack)} when the quotient is an integer: more samples than requested", node=lv[0], stmt="size of the stratified design <= n_samples")
+        ok = len(rets) == 1 and dotted(rets[0].value) == "n_levels"
+        ctx.ob("14.5-levels", con, ok, "the computed number of levels is what is returned", node=(rets or [f])[0])
+    ctx.floor("14.5-levels", 6)
+
+
 def run(ctx: Ctx) -> None:
+    check_stratified_levels(ctx)
     check_seeds(ctx)
     check_window(ctx)
     check_image(ctx)
@@ -237,6 +283,8 @@ _SC = "algos/doe/scipy/scipy_doe.py"
 _PY = "algos/doe/pydoe/pydoe.py"
 _OT = "algos/doe/openturns/openturns.py"
 WITNESSES = [
+    {"name": "composite-centre-point-forgotten", "file": "algos/doe/openturns/_algos/ot_composite_doe.py", "old": "n_levels = int((n_samples - 1) / (2 * dimension + 2**dimension))", "new": "n_levels = int(n_samples / (2 * dimension + 2**dimension))", "expect": "14.5"},
+    {"name": "axial-levels-per-direction", "file": "algos/doe/openturns/_algos/ot_axial_doe.py", "old": "n_levels = int((n_samples - 1) / 2 / dimension)", "new": "n_levels = int((n_samples - 1) / dimension)", "expect": "14.5"},
     {"name": "scipy-raw-seed", "file": _SC, "old": "            seed=self._seeder.get_seed(settings[self._SEED]),", "new": "            seed=settings[self._SEED],", "expect": "14.1"},
     {"name": "pydoe-unseeded-randomstate", "file": _PY, "old": "            settings[\"random_state\"] = RandomState(\n                self._seeder.get_seed(settings[\"random_state\"])\n            )", "new": "            settings[\"random_state\"] = RandomState()", "expect": "14.1"},
     {"name": "openturns-fixed-seed", "file": _OT, "old": "openturns.RandomGenerator.SetSeed(self._seeder.get_seed(seed))", "new": "openturns.RandomGenerator.SetSeed(self.seed)", "expect": "14.1"},
@@ -254,6 +302,7 @@ WITNESSES = [
     {"name": "budget-off-by-one", "file": DOE, "old": "self._init_iter_observer(problem, len(self.unit_samples))", "new": "self._init_iter_observer(problem, len(self.unit_samples) - 1)", "expect": "14.4"},
 ]
 TWINS = [
+    {"name": "axial-quotient-rewritten", "file": "algos/doe/openturns/_algos/ot_axial_doe.py", "old": "n_levels = int((n_samples - 1) / 2 / dimension)", "new": "n_levels = (n_samples - 1) // (2 * dimension)"},
     {"name": "seeder-mirrored", "file": SEED, "old": "        return self.default_seed if seed is None else seed", "new": "        return seed if seed is not None else self.default_seed"},
     {"name": "budget-from-samples", "file": DOE, "old": "self._init_iter_observer(problem, len(self.unit_samples))", "new": "self._init_iter_observer(problem, len(self.samples))"},
 ]
